@@ -35,10 +35,10 @@ def main():
         signature=lambda r: "%s %s" % (r.get("solver", "?"), r.get("fault", "?")) if r.get("case") else r.get("detail", "")[:100],
         exhaustive={"quick": True, "thorough": True}, nontrivial_key="fault_reached", fault_kinds_key="fault_kinds_reached",
         rule="complete enumeration, per solver (Newton-Raphson, Broyden, Broyden2, Powell dog-leg Newton/Broyden, Levenberg-Marquardt), size N in {1,2,3,4,6,8}, "
-             "system family (affine, mildly nonlinear with known root, singular jacobian at the start) and iterMax, of every set of <= 3 faulty residual evaluations among the first iterMax+2 "
+             "system family (affine, mildly nonlinear with known root, singular jacobian at the start; plus the affine family scaled by 1e-6, 1e-9 and 1e-12 together with its convergence threshold, with at most one fault) and iterMax, of every set of <= 3 faulty residual evaluations among the first iterMax+2 "
              "x fault kind (returns false, NaN / +inf / -inf in the residual, NaN in the jacobian); non-trivial = at least one injected fault was actually reached; cases are distinct by construction",
         assumptions=["only the fault clauses of C08 are decided: no success on a failed / non-finite evaluation, success implies the last residual was evaluated at the returned unknowns and meets the criterion, iter <= iterMax, evaluations <= 2*iterMax+2",
-                     "'Newton converges inside its basin' is covered only as bounded liveness: Newton-Raphson on an affine well-conditioned system converges once rejected evaluations stop and enough iterations are left",
+                     "'Newton converges inside its basin' is covered only as bounded liveness: Newton-Raphson on an affine well-conditioned system (at four magnitudes: the method is invariant under a scaling of the residual) converges once rejected evaluations stop and enough iterations are left",
                      "a NaN written in the jacobian does not invalidate the residual of that evaluation (a solver may legitimately converge on it)"],
         components={"real": ["include/TFEL/Math/NonLinearSolvers/TinyNonLinearSolverBase.ixx", "TinyNewtonRaphsonSolver.ixx", "TinyBroydenSolver.ixx", "TinyBroyden2Solver.ixx", "TinyPowellDogLeg*Solver.ixx", "TinyPowellDogLegAlgorithmBase.hxx", "TinyLevenbergMarquardtSolver.ixx", "TinyMatrixSolve"],
                     "stub": ["the residual callback (CRTP child with a fault plan and an evaluation log)"]},
